@@ -111,6 +111,10 @@ MsgOK(t, M, ctx, rnd) ==
       /\ ~slh_verify(p, M, SubSeq(sig, 1, Len(sig) - 1), ctx, k.pk)              \* wrong length
       /\ ~slh_verify(p, M, sig \o <<0>>, ctx, k.pk)
       /\ \A j \in 0..p.d : PieceOK(p, Mp, k.sk, rnd, sig, j)
+      /\ CheapPartsOK(p, H_msg(p, SigR(p, sig), k.pk.seed, k.pk.root, Mp), k.sk, sig)
+      \* a changed FORS secret value or WOTS+ chain value is seen by CheapPartsOK
+      /\ ~CheapPartsOK(p, H_msg(p, SigR(p, sig), k.pk.seed, k.pk.root, Mp), k.sk, Bump(sig, p.n + 1))
+      /\ ~CheapPartsOK(p, H_msg(p, SigR(p, sig), k.pk.seed, k.pk.root, Mp), k.sk, Bump(sig, (1 + p.k * (1 + p.a)) * p.n + 1))
       /\ \A i \in 1..Len(sig) : \E j \in 0..p.d : ~PieceOK(p, Mp, k.sk, rnd, Bump(sig, i), j)
 
 B2bOK(b, hi) ==
